@@ -413,7 +413,17 @@ func (st *State) colArr(h *HeapView, t *entTable, col string) *Term {
 	if c == nil {
 		st.unsupported("ent: no column %s.%s", t.Name, col)
 	}
-	return st.heapGet(h, tblKey(t.Name, col), ArrS(SInt, c.Sort), false)
+	// columns holding JSON slices / maps hold references to their backing objects
+	return st.heapGet(h, tblKey(t.Name, col), ArrS(SInt, c.Sort), c.Slice != nil || isMapCol(c))
+}
+
+func isMapCol(c *entCol) bool {
+	vt := c.GoType
+	if pt, ok := vt.Underlying().(*types.Pointer); ok {
+		vt = pt.Elem()
+	}
+	_, ok := vt.Underlying().(*types.Map)
+	return ok
 }
 
 func (st *State) colGet(h *HeapView, t *entTable, col string, row *Term) *Term {
@@ -425,6 +435,22 @@ func (st *State) colGet(h *HeapView, t *entTable, col string, row *Term) *Term {
 
 // memberArr gives the characteristic array of the set of elements of a slice (in view h):
 // membership tests become quantifier-free selects; the existential is skolemised once.
+// memberOf: v is an element of the slice (in view h). Ground slices use the characteristic array;
+// slices that depend on bound variables are expanded to an inline existential.
+func (st *State) memberOf(h *HeapView, sv *SliceV, v *Term) *Term {
+	dep := func(t *Term) bool { return strings.Contains(t.S, "!b") || strings.Contains(t.S, "!q") }
+	if dep(sv.Base) || dep(sv.Len) || dep(sv.Off) {
+		ls := st.e.leaves(sv.Elem)
+		if len(ls) != 1 {
+			st.unsupported("membership in a slice of non-scalar elements")
+		}
+		arr := st.heapGet(h, "E|"+typeKey(sv.Elem)+"|", ArrS(SInt, ArrS(SInt, ls[0].Sort)), ls[0].IsRef)
+		i := st.qv("mi")
+		return Exists([]*Term{i}, And(Ge(i, IntLit(0)), Lt(i, sv.Len), Eq(Select(Select(arr, sv.Base), Add(sv.Off, i)), v)))
+	}
+	return Select(st.memberArr(h, sv), v)
+}
+
 func (st *State) memberArr(h *HeapView, sv *SliceV) *Term {
 	ls := st.e.leaves(sv.Elem)
 	if len(ls) != 1 {
@@ -583,7 +609,7 @@ func (st *State) predTV(h *HeapView, t *entTable, p SVal, x *Term) tv {
 					}
 					member = Or(ds...)
 				} else {
-					member = Select(st.memberArr(h, sv), val)
+					member = st.memberOf(h, sv, val)
 				}
 				if ep.Cmp == "In" {
 					return tv{And(Not(null), member), Or(null, Not(member))} // NULL IN (...) is unknown -> not selected; treated as false for NOT too (documented)
@@ -922,7 +948,11 @@ func (st *State) sqlCall(fr *Frame, in ssa.CallInstruction, callee *ssa.Function
 			sel.Distinct = true
 			return h, true
 		case "Join", "LeftJoin":
-			th, ok := args[1].(*EntH)
+			targ := args[1]
+			if iv, isI := targ.(*IfaceV); isI && iv.CVal != nil {
+				targ = iv.CVal
+			}
+			th, ok := targ.(*EntH)
 			if !ok || th.Kind != "stbl" {
 				st.unsupported("ent: Join of a non-table")
 			}
